@@ -314,7 +314,9 @@ class CallMixin:
             else:
                 results = [(None, res)]
         else:
-            results = [(None, c.result_maker(self, st, ctx) if c.result_maker else (VUnk("generator") if c.generator else NONE))]
+            rm = c.result_maker(self, st, ctx) if c.result_maker else (VUnk("generator") if c.generator else NONE)
+            # a result_maker may return a case split [(cond | None, V)] like `returns`
+            results = rm if (isinstance(rm, list) and rm and isinstance(rm[0], tuple)) else [(None, rm)]
         for cond, rv in results:
             s2 = st.fork() if len(results) > 1 else st
             if cond is not None:
